@@ -2,7 +2,7 @@
 # Never touches /repo/_build.  Driven by lib/build.py (which holds a flock).
 REPO ?= /repo
 SRC  := $(REPO)/src
-B    := build
+B    ?= build
 GEN  := $(B)/gen
 
 HDF5_INC := -I/usr/include/hdf5/serial
